@@ -55,8 +55,8 @@ def build():
     }, others='stub')
     P = ('C06', 'C01')
     idx = [
-        ('list_int_index', '{o} is List && {i} is Int ==> list_index_ok({o}->List_0@, {i}->Int_0 as int, {r})', P),
-        ('list_uint_index', '{o} is List && {i} is UInt ==> list_index_ok({o}->List_0@, {i}->UInt_0 as int, {r})', P),
+        ('list_int_index', '{o} is List && {i} is Int ==> list_index_ok({o}->List_0@, {i}->Int_0 as int, {r})', ('C06', 'C08', 'C01')),
+        ('list_uint_index', '{o} is List && {i} is UInt ==> list_index_ok({o}->List_0@, {i}->UInt_0 as int, {r})', ('C06', 'C08', 'C01')),
         ('list_other_index_is_error', '{o} is List && !({i} is Int) && !({i} is UInt) ==> {r} is Err', P),
         ('map_value_under_key_or_absent_field_error', '{o} is Map && {i} is String ==> (match map_lookup({o}->Map_0@, {i}->String_0@) {{ Some(v) => {r} == v, None => {r} is Err && {r}->Err_0 is Attribute }})', ('C06', 'C08', 'C01')),
         ('map_non_string_key_is_error', '{o} is Map && !({i} is String) ==> {r} is Err', P),
